@@ -13,10 +13,11 @@ NormFiles(f) == [i \in 1..Len(f) |-> <<f[i][1], [j \in 1..Len(f[i][2]) |-> [fnam
 NormFields(fs) == [i \in 1..Len(fs) |-> [name |-> fs[i].name, isfile |-> fs[i].isfile, fname |-> fs[i].fname, ctype |-> fs[i].ctype, data |-> fs[i].data]]
 \* a delivered value is the complete data of a part: preceded by the end of a header block, followed by the delimiter
 Terminated(body, v) ==
-  \E i \in 0..(Len(body) - Len(v)) :
-     /\ Slice(body, i, i + Len(v)) = v
-     /\ StartsWithAt(body, Token, i + Len(v))
-     /\ i >= 4 /\ Slice(body, i - 4, i) = CRLFx2
+  /\ (Len(v) > 1500 \/ FindFrom(v, Token, 0) < 0)   \* the data of one part never contains the delimiter (it would have ended there); long uploads: not scanned here
+  /\ \E i \in 0..(Len(body) - Len(v)) :
+       /\ Slice(body, i, i + Len(v)) = v
+       /\ StartsWithAt(body, Token, i + Len(v))
+       /\ i >= 4 /\ Slice(body, i - 4, i) = CRLFx2
 DeliveredOK(t) ==
   /\ \A i \in 1..Len(t.forms) : \A j \in 1..Len(t.forms[i][2]) : Terminated(t.body, Bytes(t.forms[i][2][j]))
   /\ \A i \in 1..Len(t.files) : \A j \in 1..Len(t.files[i][2]) : Terminated(t.body, t.files[i][2][j][3])
